@@ -1232,3 +1232,57 @@ def rule_lookups_before_create(ctx):
             ctx.holds("LOOKFIRST", key, f.where(line), "every failing look-up of an existing descriptor precedes HTPcreate" + (" (or the created descriptor is deleted again)" if late is not None else ""), nontrivial=True)
     ctx.floor("LOOKFIRST", 1, n, "(routines that look up one descriptor and create another)")
     return n
+
+
+def rule_fieldwise_copy_names(ctx):
+    """SAMEFIELD (C04, C05): parameter records are handed from one layer to the next field by field
+    (`cinfo.nbit.sign_ext = cdef->nbit.sign_ext; cinfo.nbit.fill_one = cdef->nbit.fill_one; ..`).  In such a run of
+    assignments between the same two records, where destination and source fields carry the same names, no source field is
+    used twice: an assignment whose source field differs from its destination field *and* is the source of a neighbouring
+    assignment is a slip of the pen - a chunked n-bit data set created with fill_one = sign_ext reads back other values than
+    the contiguous one made from the same parameters."""
+    from .codec import ast_walk
+    from .facts import kind, strip, walk, render
+    prog = ctx.prog
+    n = 0
+    for f in prog.funcs:
+        ast = f.raw.get("ast")
+        if not ast:
+            continue
+        groups = []
+
+        def vis(nd, st):
+            if nd[0] == "block":
+                run = {}
+                for k in nd[1]:
+                    if k[0] == "s" and kind(k[1]) == "asg" and k[1][1] == "=":
+                        d, s_ = strip(k[1][2]), strip(k[1][3])
+                        if kind(d) == "mem" and kind(s_) == "mem":
+                            key = (render(strip(d[1])), render(strip(s_[1])))
+                            run.setdefault(key, []).append((d[2], s_[2], k))
+                for key, items in run.items():
+                    if len(items) >= 3 and sum(1 for a, b, _k in items if a == b) >= 2:
+                        groups.append((key, items))
+            return True
+
+        ast_walk(ast, vis)
+        for gi, (key, items) in enumerate(groups, 1):
+            n += 1
+            k_ = "SAMEFIELD:%s#%d" % (f.name, gi)
+            srcs = {}
+            for a, b, nd in items:
+                srcs.setdefault(b, []).append((a, nd))
+            bad = None
+            for b, lst in srcs.items():
+                if len(lst) > 1:
+                    for a, nd in lst:
+                        if a != b:
+                            bad = (a, b, nd)
+            line = (bad[2] if bad else items[0][2])[-3]
+            line = line if isinstance(line, int) else f.line
+            if bad:
+                ctx.violated("SAMEFIELD", k_, f.where(line), "`%s.%s` is copied from `%s.%s`, which is also the source of the like-named field next to it: one parameter is passed on twice and another not at all" % (key[0][:30], bad[0], key[1][:30], bad[1]))
+            else:
+                ctx.holds("SAMEFIELD", k_, f.where(line), "%d fields are copied from `%s` to `%s`, each source field once" % (len(items), key[1][:30], key[0][:30]), nontrivial=True)
+    ctx.floor("SAMEFIELD", 5, n, "(field-by-field copies between two records)")
+    return n
